@@ -215,6 +215,34 @@ func init() {
 		}
 		k(st, res)
 	}
+	// sort.Ints(s): afterwards s holds a permutation of its former elements in ascending order. The permutation is an
+	// uninterpreted bijection on [0, len(s)) (function and inverse).
+	libSpecs["sort.Ints"] = func(e *Engine, st *State, fn *ssa.Function, args []Val, pos token.Pos, k Kont) {
+		tb := e.tb
+		sT := fn.Signature.Params().At(0).Type()
+		s := e.materialiseIfSlice(st, args[0], sT)
+		cl := e.elemClass(types.Typ[types.Int], "", Leaves(types.Typ[types.Int])[0])
+		h := e.H(st, cl, SArr2I)
+		old := tb.Select(h, s.slArr())
+		nr := tb.Fresh("sorted_row", SArrI)
+		id := tb.Fresh("sortcall", SInt)
+		n, off := s.slLen(), s.slOff()
+		i := tb.BoundVar("i", SInt)
+		j := tb.BoundVar("j", SInt)
+		pi := func(x *Term) *Term { return tb.App("sortperm", SInt, id, x) }
+		inv := func(x *Term) *Term { return tb.App("sortperminv", SInt, id, x) }
+		in := func(x *Term) *Term { return tb.And(tb.Le(tb.Int(0), x), tb.Lt(x, n)) }
+		e.assume(st, tb.Forall([]*Term{i}, tb.Implies(in(i), tb.And(tb.Eq(tb.Select(nr, tb.Idx(off, i)), tb.Select(old, tb.Idx(off, pi(i)))), in(pi(i)), tb.Eq(inv(pi(i)), i))),
+			[]*Term{tb.Select(nr, tb.Idx(off, i))}, []*Term{pi(i)}))
+		e.assume(st, tb.Forall([]*Term{j}, tb.Implies(in(j), tb.And(in(inv(j)), tb.Eq(pi(inv(j)), j))), []*Term{inv(j)}))
+		e.assume(st, tb.Forall([]*Term{i, j}, tb.Implies(tb.And(tb.Le(tb.Int(0), i), tb.Le(i, j), tb.Lt(j, n)), tb.Le(tb.Select(nr, tb.Idx(off, i)), tb.Select(nr, tb.Idx(off, j)))),
+			[]*Term{tb.Select(nr, tb.Idx(off, i)), tb.Select(nr, tb.Idx(off, j))}))
+		// elements outside the slice keep their values
+		m := tb.BoundVar("m", SInt)
+		e.assume(st, tb.Forall([]*Term{m}, tb.Implies(tb.Or(tb.Lt(m, off), tb.Ge(m, tb.Add(off, n))), tb.Eq(tb.Select(nr, m), tb.Select(old, m))), []*Term{tb.Select(nr, m)}))
+		e.setH(st, cl, tb.Store(h, s.slArr(), nr))
+		k(st, Val{})
+	}
 	// slices.Clone(s): nil for nil, otherwise a fresh backing array holding the same element values (a shallow copy).
 	libSpecs["slices.Clone"] = func(e *Engine, st *State, fn *ssa.Function, args []Val, pos token.Pos, k Kont) {
 		tb := e.tb
